@@ -568,7 +568,8 @@ class C12(common.Prop):
             "random confidence patterns incl. never/once-observed points; operation sequences drawn adaptively from the public API "
             "(selection, removal, bbox, interpolate, slice_step, select_frames, both dropouts, flip, augment2d, normalize, "
             "normalize_distribution, focus, copy, torch(), tensorflow()) with a malformed stream (bad names, steps <= 0, indexes out of "
-            "range, unobserved reference points, zero deviations); non-trivial = at least one operation succeeded; distinct by content hash")
+            "range, unobserved reference points, zero deviations); every case carries at least one operation (all count as non-trivial); "
+            "distinct by content hash of start pose + seeds")
     TRUSTED = ["Coq 8.16.1 kernel", "harness/translate_c12.py (fail-closed ast translator)", "extraction: ExtrOcamlBasic only; runner/driver.ml",
                "harness/c12.py observers (mask polarity, errors -> one class)"]
     ASSUMPTIONS = ["numpy.ma / torch / tensorflow kernels propagate masks as transcribed in model/C12_Model.v (sampled by the correspondence)",
@@ -621,7 +622,7 @@ class C12(common.Prop):
         return case
 
     def gen_cases(self, rng, tier):
-        n = 2500 if tier == "quick" else 40000
+        n = 2500 if tier == "quick" else 80000
         maxlen = 8 if tier == "quick" else 20
         for i in range(n):
             r = rng.random()
